@@ -128,3 +128,26 @@ class AdmissionCounter:
 
     def __exit__(self, *a: Any) -> None:
         self._Column.add = self._orig  # type: ignore
+
+
+def reset_constraint_caches(spec: Any) -> None:
+    """Empty every Constraint.cache reachable from the spec's constraints (harness only: the
+    stateless explorer re-executes a body on the same objects and needs the same decisions)."""
+    seen: set = set()
+
+    def walk(c: Any) -> None:
+        if id(c) in seen:
+            return
+        seen.add(id(c))
+        if hasattr(c, "cache") and isinstance(getattr(c, "cache"), dict):
+            c.cache.clear()
+        for v in list(getattr(c, "__dict__", {}).values()):
+            if hasattr(v, "fitness") and hasattr(v, "format_as_spec"):
+                walk(v)
+            elif isinstance(v, (list, tuple)):
+                for x in v:
+                    if hasattr(x, "fitness") and hasattr(x, "format_as_spec"):
+                        walk(x)
+
+    for c in spec.constraints:
+        walk(c)
